@@ -710,6 +710,7 @@ func newHdSystem(t *testing.T, backends []hdBackendCfg) *hdSystem {
 	br := mux.NewRouter()
 	for i := range backends {
 		s.backend.secrets = append(s.backend.secrets, hdBackendSecret(i))
+		s.backend.keys[i] = hdBackendKey(i).pubText
 		p := fmt.Sprintf("/b%d", i)
 		br.HandleFunc(p+"/ocs/v2.php/apps/spreed/api/v1/signaling/backend", s.backend.handler(i))
 		br.HandleFunc(p+"/ocs/v2.php/cloud/capabilities", s.backend.capabilities(i))
